@@ -8,7 +8,7 @@
     expansion of every corpus declaration on every run; the theorems say what a successful check
     means for all raw values, all arguments, all in-range indices and both build profiles
     ([c] ranges over overflow-checks on/off). *)
-From BB Require Import Bits Expr Sym Spec Validate Parse ParseCorrect Enum Prog History Builder Surface DebugFmt Gen GenCorrect BuilderValid.
+From BB Require Import Bits Expr Sym Spec Validate Parse ParseCorrect Enum Prog History Builder Surface DebugFmt Gen GenCorrect BuilderValid Tokens.
 Open Scope N_scope.
 
 (** ** C01 — getter returns exactly the declared bits *)
@@ -381,3 +381,14 @@ Theorem C07_real_match_is_the_model_conversion : forall e p,
    end) = true ->
   forall x, ep_new p (live_name e) x = enum_new e x.
 Proof. exact check_enum_new_sound. Qed.
+
+(** C09, the attribute grammar: the macro's token automaton on the tokens of a well-formed attribute yields exactly
+    the ranges, access flags and stride the structured decision starts from, or rejects exactly when it does *)
+Theorem C09_argument_automaton_parses_well_formed_attributes : forall f,
+  (f_entries f <> [] \/ f_list f = true) ->
+  option_map result_of (parse_attr (f_bits_kw f) (is_some (f_count f)) (print_attr f)) = front f.
+Proof. exact parse_print. Qed.
+
+Theorem C09_accepted_fields_have_a_parsable_attribute : forall W f,
+  accept_field W f = true -> exists r, front f = Some r.
+Proof. exact accept_field_front. Qed.
